@@ -177,6 +177,12 @@ def name_form(rng, comps, allow_str=True, one_shot=True):
         if k == 1:
             return iter([bytes(c) for c in comps]), 'iterator'
         return map(bytes, [bytes(c) for c in comps]), 'map'
+    if rng.random() < 0.15:
+        # a tuple of components is an iterable of components like a list (also of exactly two components, which once meant a
+        # (preference, name) delegation)
+        if allow_str and rng.random() < 0.4:
+            return tuple(rc.comp_to_canonical_uri(c) if rng.random() < 0.5 else bytes(c) for c in comps), 'tuple-mixed-str'
+        return tuple(bytes(c) for c in comps), 'tuple-bytes'
     k = rng.randrange(6 if allow_str else 3)
     if k == 0:
         return [bytes(c) for c in comps], 'list-bytes'
